@@ -333,12 +333,26 @@ impl AsRef<Term> for Term {
     }
 }
 
+/// escapes a string the way the Datalog parser reads it back (`\\`, `\"` and `\n`)
+pub(crate) fn escape_string(s: &str) -> String {
+    let mut out = String::with_capacity(s.len());
+    for c in s.chars() {
+        match c {
+            '\\' => out.push_str("\\\\"),
+            '"' => out.push_str("\\\""),
+            '\n' => out.push_str("\\n"),
+            c => out.push(c),
+        }
+    }
+    out
+}
+
 impl fmt::Display for Term {
     fn fmt(&self, f: &mut fmt::Formatter<'_>) -> fmt::Result {
         match self {
             Term::Variable(i) => write!(f, "${}", i),
             Term::Integer(i) => write!(f, "{}", i),
-            Term::Str(s) => write!(f, "\"{}\"", s),
+            Term::Str(s) => write!(f, "\"{}\"", escape_string(s)),
             Term::Date(d) => {
                 let date = time::OffsetDateTime::from_unix_timestamp(*d as i64)
                     .ok()
@@ -379,7 +393,7 @@ impl fmt::Display for Term {
                     .iter()
                     .map(|(key, term)| match key {
                         MapKey::Integer(i) => format!("{i}: {}", term),
-                        MapKey::Str(s) => format!("\"{s}\": {}", term),
+                        MapKey::Str(s) => format!("\"{}\": {}", escape_string(s), term),
                         MapKey::Parameter(s) => format!("{{{s}}}: {}", term),
                     })
                     .collect::<Vec<_>>();
